@@ -56,6 +56,8 @@ int cmd_mt(int argc, char** argv) {
     std::atomic<bool> go{false};
     auto worker = [&](int tid) {
         std::mt19937 rng(seed * 7919u + static_cast<unsigned>(tid));
+        std::string prev_path, first_path;
+        json prev_blocks;
         ready++;
         while (!go.load()) std::this_thread::yield();
         for (size_t i = static_cast<size_t>(tid); i < cases.size(); i += static_cast<size_t>(T)) {
@@ -81,12 +83,36 @@ int cmd_mt(int argc, char** argv) {
                     json job = {{"id", e["closed"]["id"]}, {"path", e["closed"]["path"]}, {"stream", (std::hash<std::string>()(cases[i]["id"].get<std::string>()) & 1) ? "ifstream" : "sstream"},
                                 {"dump", "full"}, {"tables", true}, {"render", true}};
                     json rr = run_read_job(job);
+                    if (reads.empty()) first_path = e["closed"]["path"].get<std::string>();
                     rr.erase("cpu");
                     rr.erase("alloc_max");
                     reads.push_back(rr);
                 }
             }
             r["reads"] = reads;
+            // two readers alive on this thread at the same time, used alternately block by block: each must return what it returns when it
+            // is the only reader (independent instances share nothing, whichever thread they live on)
+            if (!reads.empty() && reads[0].value("hdr", json()) == "ok" && reads[0].value("end", json()) == "eof") {
+                if (!prev_path.empty()) {
+                    try {
+                        std::ifstream fa(prev_path, std::ifstream::binary), fb(first_path, std::ifstream::binary);
+                        CDNS::CdnsReader ra(fa), rb(fb);
+                        json ba = json::array(), bb = json::array();
+                        bool ea = false, eb = false;
+                        uint64_t dummy = 0;
+                        while (!ea || !eb) {
+                            if (!ea) { bool eof = false; CDNS::CdnsBlockRead b = ra.read_block(eof); if (eof) ea = true; else ba.push_back(block2j(b, true, false, dummy)); }
+                            if (!eb) { bool eof = false; CDNS::CdnsBlockRead b = rb.read_block(eof); if (eof) eb = true; else bb.push_back(block2j(b, true, false, dummy)); }
+                        }
+                        r["interleaved"] = (ba == prev_blocks && bb == reads[0]["blocks"]) ? "same" : "differs";
+                    }
+                    catch (std::exception& e) {
+                        r["interleaved"] = std::string("exception: ") + e.what();
+                    }
+                }
+                prev_path = first_path;
+                prev_blocks = reads[0]["blocks"];
+            }
             r["t1"] = now_ns();
             results[i] = r;
         }
